@@ -257,7 +257,10 @@ Definition revoke (us : list user) (n d : string) (p : priv) : list user :=
    database d ("" = the request's db; every such entry of the source carries Rwuser: true). RRwAllow / RRwDeny are not
    entries of the source list: they mark the statement INSTANCES that AuthorizeQueryForRwUser lets through (`continue`)
    or refuses before it looks at the list; they mean nothing for other users. *)
-Inductive reqpriv := RAdmin | RAdminRw | RDb (d : string) (p : priv) | RRwAllow | RRwDeny.
+(* RInvalid: RequiredPrivileges itself fails for the statement (a plain error, not ErrAuthorize: "invalid source" for table
+   function / unnest / binary-operation / CTE sources). AuthorizeQuery hands that error on for everybody but the
+   administrator (whose check comes first), and checkAuthorization must refuse on ANY error. *)
+Inductive reqpriv := RAdmin | RAdminRw | RDb (d : string) (p : priv) | RRwAllow | RRwDeny | RInvalid.
 Definition stmt := list reqpriv.
 
 Definition target_db (d dflt : string) : string := if String.eqb d "" then dflt else d.
@@ -267,7 +270,7 @@ Definition is_rwdeny (rp : reqpriv) : bool := match rp with RRwDeny => true | _ 
 (* UserInfo.AuthorizeQuery, ordinary user: every entry must hold, an Admin entry never does *)
 Definition authorize_stmt_plain (u : user) (db : string) (s : stmt) : bool :=
   forallb (fun rp => match rp with
-                     | RAdmin | RAdminRw => false
+                     | RAdmin | RAdminRw | RInvalid => false
                      | RDb d p => authorize_database u p (target_db d db)
                      | RRwAllow | RRwDeny => true
                      end) s.
@@ -275,11 +278,44 @@ Definition authorize_stmt_plain (u : user) (db : string) (s : stmt) : bool :=
 Definition authorize_stmt_rw (s : stmt) : bool :=
   if existsb is_rwallow s then true
   else if existsb is_rwdeny s then false
-  else forallb (fun rp => match rp with RAdmin => false | _ => true end) s.
+  else forallb (fun rp => match rp with RAdmin | RInvalid => false | _ => true end) s.
 Definition authorize_stmt (u : user) (db : string) (s : stmt) : bool :=
   if u_rw u then authorize_stmt_rw s else authorize_stmt_plain u db s.
 Definition authorize_query (u : user) (db : string) (q : list stmt) : bool :=
   u_admin u || forallb (authorize_stmt u db) q.
+
+(* What QueryAuthorizer.AuthorizeQuery hands back, by kind: nil, *ErrAuthorize, or any other error (today: the error of
+   RequiredPrivileges). The first statement that does not pass decides. *)
+Inductive authz_result := AuthzOk | AuthzDenied | AuthzOtherError.
+Definition is_invalid (rp : reqpriv) : bool := match rp with RInvalid => true | _ => false end.
+Definition stmt_result (u : user) (db : string) (s : stmt) : authz_result :=
+  if authorize_stmt u db s then AuthzOk
+  else if existsb is_invalid s && negb (u_rw u && existsb is_rwallow s) then AuthzOtherError else AuthzDenied.
+Fixpoint stmts_result (u : user) (db : string) (q : list stmt) : authz_result :=
+  match q with
+  | [] => AuthzOk
+  | s :: r => match stmt_result u db s with AuthzOk => stmts_result u db r | e => e end
+  end.
+Definition query_result (u : user) (db : string) (q : list stmt) : authz_result :=
+  if u_admin u then AuthzOk else stmts_result u db q.
+(* Handler.checkAuthorization: nil only when the authorizer returned nil *)
+Definition check_authorization (r : authz_result) : bool := match r with AuthzOk => true | _ => false end.
+
+(* ---- UserInfo.AuthorizeUnrestricted as a formula over the account's flags (translated per run) ---- *)
+Inductive uexpr := UAdmin | URw | UTrue | UFalse | UOr (a b : uexpr) | UAnd (a b : uexpr) | UNot (a : uexpr) | UUnknown.
+Fixpoint eval_uexpr (e : uexpr) (adm rw : bool) : option bool :=
+  match e with
+  | UAdmin => Some adm | URw => Some rw | UTrue => Some true | UFalse => Some false
+  | UOr a b => match eval_uexpr a adm rw, eval_uexpr b adm rw with Some x, Some y => Some (x || y) | _, _ => None end
+  | UAnd a b => match eval_uexpr a adm rw, eval_uexpr b adm rw with Some x, Some y => Some (x && y) | _, _ => None end
+  | UNot a => match eval_uexpr a adm rw with Some x => Some (negb x) | None => None end
+  | UUnknown => None
+  end.
+Definition opt_bool_eqb (a : option bool) (b : bool) : bool := match a with Some x => Bool.eqb x b | None => false end.
+(* the formula is the administrator flag, whatever the other flag says *)
+Definition uexpr_is_admin (e : uexpr) : bool :=
+  opt_bool_eqb (eval_uexpr e true true) true && opt_bool_eqb (eval_uexpr e true false) true
+  && opt_bool_eqb (eval_uexpr e false true) false && opt_bool_eqb (eval_uexpr e false false) false.
 
 (* handler.go canSeeRepository / requireRepositoryRead: read or write on the repository, the rule SHOW DATABASES follows *)
 Definition can_see (u : user) (d : string) : bool := authorize_database u ReadPriv d || authorize_database u WritePriv d.
